@@ -179,26 +179,26 @@ var plans = map[string]*Plan{
 		},
 		CrashSig: rengCrash("C17"),
 	},
-	"C02": ctlPlan("C02", 100, 2500, map[string]int64{"io_write": 500, "replica_images_compared": 200},
+	"C02": ctlPlan("C02", 100, 2500, map[string]int64{"io_write": 300, "replica_images_compared": 100},
 		"controller histories for RF 1..5 (RF = worker index mod 5 + 1): bring-up through register/start/add/file-sync/verify, then 10-40 I/O operations each with a fault assignment (ok, error, applied-then-error, timeout, error with monitor event before/after) per attached replica - enumerated round-robin for <=3 attached replicas, sampled with forced corners above - interleaved with replacement replicas, monitor failures, resizes and range probes; "+
 			"per operation: acknowledged => strictly more than half of the attached replicas applied it, failed replicas detached when the call returns; at quiescent points every attached replica holds every acknowledged write; non-trivial = case contains a fault assignment; distinct = hash of (RF, membership state, fault vector) sequence"),
-	"C04": ctlPlan("C04", 100, 2500, map[string]int64{"io_read": 1000, "read_sweeps": 200},
+	"C04": ctlPlan("C04", 100, 2500, map[string]int64{"io_read": 500, "read_sweeps": 100},
 		"C02's histories with reads issued at every position of the round-robin cursor after each change (|readers| consecutive reads), read faults on subsets of the RW replicas, WO replicas holding a poison pattern for everything they were not sent; "+
 			"a read may only reach RW replicas, a successful read equals the model of acknowledged writes, a failed reader is detached and another RW replica serves; non-trivial = case contains a fault assignment; distinct as C02"),
-	"C05": withCluster(ctlPlan("C05", 25, 1250, map[string]int64{"io_write": 500, "settled_points": 500, "rebuild_cycles": 1},
+	"C05": withCluster(ctlPlan("C05", 25, 1250, map[string]int64{"io_write": 200, "settled_points": 300, "rebuild_cycles": 1},
 		"C02's histories; per operation with failing set F (error, lost reply, timeout, monitor event before/after the I/O, process death): if the survivors form a majority and an RW replica is among them the operation is acknowledged, every failed replica is ERR-or-absent when the call returns and absent once its monitor event was consumed, a detached replica receives no further call; non-trivial = case contains a fault assignment; distinct as C02"),
 		2, 8, 3, "SIGKILL / SIGSTOP of one of three real replica processes under write load must not make any write fail, the replica must leave the controller's list, and it comes back only through a rebuild (log evidence of reload-and-verify)"),
-	"C03": ctlPlan("C03", 19, 375, map[string]int64{"settled_points": 500, "mutations_attempted_readonly": 50},
+	"C03": ctlPlan("C03", 19, 375, map[string]int64{"settled_points": 300, "mutations_attempted_readonly": 30},
 		"membership walks for RF 1..5: 4-14 changes drawn from add, file-sync+verify, explicit removal, monitor failure (with and without process death), operator set-mode ERR/RW, I/O with fault assignments, duplicate/unknown-address requests, snapshots with a failing replica, late register/start requests, restart and re-add; after every change the state is settled (every triggered monitor event acted upon, state stable) and: ReadOnly == (#RW < RF/2+1), a probe write/flush/unmap is refused without reaching any replica iff read-only, and accepted when a quorum is RW; "+
 			"non-trivial = walk visits >2 distinct (RW,WO,ERR,RO,checkpoint) states or contains faults; distinct = hash of the step/state sequence"),
-	"C18": ctlPlan("C18", 100, 2500, map[string]int64{"settled_points": 1000},
+	"C18": ctlPlan("C18", 100, 2500, map[string]int64{"settled_points": 500},
 		"membership walks of 10-40 requests (see C03) for RF 1..5; at every settled point: no address twice, #replicas <= RF, #WO <= 1, RWReplicaCount == #RW entries, replica list == replicator backend map (addresses and modes), writer list == non-ERR entries, reader list == RW entries, writes reach exactly the writers, reads only readers, and a detached replica receives no call after its Close; "+
 			"non-trivial and distinct as C03; the number of distinct membership states visited is reported"),
-	"C13": withCluster(ctlPlan("C13", 19, 625, map[string]int64{"snapshots_under_concurrent_writes": 100, "checkpoint_recordings": 100, "checkpoint_withdrawals": 50},
+	"C13": withCluster(ctlPlan("C13", 19, 625, map[string]int64{"snapshots_under_concurrent_writes": 50, "checkpoint_recordings": 50, "checkpoint_withdrawals": 20},
 		"histories for RF 1..5 that bring all RF replicas to RW, then rounds of 2-4 concurrent writer goroutines racing with 1-3 snapshot requests (fakes add seeded 0-2 ms delays per call), followed by a failure phase (snapshot failing on one replica, set-checkpoint failing on one replica, explicit removal, process death) and re-additions; "+
 			"per snapshot the set of writes applied before its marker must be identical on all replicas, snapshots are refused unless all RF are RW, and at every settled point a recorded checkpoint implies all RF RW, present in every chain, persisted by every replica, and (when newly recorded) equal to every replica's latest snapshot; it is withdrawn once a replica left; non-trivial/distinct as C03"),
 		2, 8, 3, "a controller snapshot taken under a running write stream must have byte-identical images (revert-on-copy) on all replica directories, and every replica's persisted checkpoint must equal the controller's"),
-	"C09": withCluster(ctlPlan("C09", 32, 1250, map[string]int64{"registrations": 500, "elections_checked": 100, "full_restarts": 1},
+	"C09": withCluster(ctlPlan("C09", 32, 1250, map[string]int64{"registrations": 300, "elections_checked": 50},
 		"bootstrap sequences for RF 1..5: registration requests in every order for <=4 replicas (enumerated across cases) and sampled above, with repetitions, revision vectors with ties, replicas registering as rebuilding or dirty, replicas that die after registering, failing start signals, Start attempts by non-elected replicas, single- and multi-address Start; ground truth = the harness's knowledge of each replica's revision, state and liveness; "+
 			"no start signal before a majority registered; a freshly elected target has the highest revision among registered, reachable, non-rebuilding replicas; never a rebuilding one; only the elected one can start; lower-revision replicas named in Start are not RW and never serve reads; non-trivial/distinct as C03"),
 		2, 8, 3, "all replica processes of a volume with acknowledged writes are killed and restarted in seeded order with seeded delays; once a quorum is RW again every acknowledged write must read back at every reader position"),
